@@ -294,6 +294,9 @@ func TestSim(t *testing.T) {
 				}
 			}
 			min, minRes, steps := shrinkCase(w, sc, start, prop, v.Predicate, startRes)
+			if sp, ok := sc.(SchedPinner); ok {
+				min, minRes, steps = shrinkSchedules(w, sc, sp, min, minRes, prop, v.Predicate, steps)
+			}
 			mv := minRes.first(prop)
 			if what, isKnown := known[knownKey(mv.Property, mv.Predicate, mv.Signature)]; isKnown {
 				out.KnownCount++
@@ -515,4 +518,65 @@ func corpusDigests(w *World, corpus string, seed uint64, worker int) []string {
 		out = append(out, o.digest)
 	}
 	return out
+}
+
+// shrinkSchedules replaces seeded schedules by the explicit pick lists of the failing run and
+// minimises them: shortest failing prefix (everything after it is fifo), then single picks to 0.
+func shrinkSchedules(w *World, sc Scenario, sp SchedPinner, c any, res *Result, prop, pred string, steps int) (any, *Result, int) {
+	fails := func(cand any) *Result {
+		w.Reset()
+		r := sc.Exec(w, cand, prop)
+		if v := r.first(prop); v != nil && v.Predicate == pred {
+			return r
+		}
+		return nil
+	}
+	pinned, ptrs := sp.PinSchedules(c, res)
+	if pinned == nil {
+		return c, res, steps
+	}
+	r := fails(pinned)
+	if r == nil {
+		return c, res, steps // the explicit schedule does not reproduce (schedules shared between calls): keep the seeds
+	}
+	c, res = pinned, r
+	steps++
+	attempts := 0
+	for _, p := range ptrs {
+		// shortest failing prefix by bisection on the length
+		lo, hi := 0, len(p.Picks)
+		full := append([]int{}, p.Picks...)
+		for lo < hi && attempts < 200 {
+			mid := (lo + hi) / 2
+			p.Picks = append([]int{}, full[:mid]...)
+			attempts++
+			if rr := fails(c); rr != nil {
+				hi, res = mid, rr
+			} else {
+				lo = mid + 1
+			}
+		}
+		p.Picks = append([]int{}, full[:hi]...)
+		for i := range p.Picks {
+			if p.Picks[i] == 0 || attempts >= 400 {
+				continue
+			}
+			old := p.Picks[i]
+			p.Picks[i] = 0
+			attempts++
+			if rr := fails(c); rr != nil {
+				res = rr
+				steps++
+			} else {
+				p.Picks[i] = old
+			}
+		}
+		if len(p.Picks) == 0 {
+			*p = Sched{Policy: "fifo"}
+		}
+	}
+	if rr := fails(c); rr != nil {
+		res = rr
+	}
+	return c, res, steps
 }
